@@ -2092,8 +2092,11 @@ func (h *vC03Hist) opGet() { h.getAt(h.lookupSpec()) }
 // the cache — where the resolver sits — then asks Store.GetWithContext, with the context the cache handed down,
 // for s.q in BOTH checking-disabled partitions, as Resolver.subQuery does for its DS / DNSKEY lookups.
 func (h *vC03Hist) getTreeAt(s vC03Spec) {
+	h.getTreeAtWith(s, h.r.Intn(2) == 0, h.r.Intn(2) == 0)
+}
+
+func (h *vC03Hist) getTreeAtWith(s vC03Spec, tcd, tecs bool) {
 	r := h.r
-	tcd, tecs := r.Intn(2) == 0, r.Intn(2) == 0
 	h.treeN++
 	outer := new(dns.Msg)
 	outer.SetQuestion(fmt.Sprintf("tree%d.vc03-outer-%d.", h.treeN, r.Intn(1000)), dns.TypeA)
@@ -2150,6 +2153,10 @@ func (h *vC03Hist) getAt(s vC03Spec) {
 		h.getTreeAt(s)
 		return
 	}
+	h.getPlainAt(s)
+}
+
+func (h *vC03Hist) getPlainAt(s vC03Spec) {
 	m, ok := h.c.store.Get(vC03Req(s.q, s.cd))
 	out := "BMiss"
 	if ok {
@@ -2323,6 +2330,43 @@ func (h *vC03Hist) followReq(s vC03Spec, client netip.Prefix) *dns.Msg {
 func (h *vC03Hist) followRound() {
 	r := h.r
 	s := h.randSpec()
+	// the audience both requests come from: none, or an ECS source inside the scope an answer would be filed under
+	var client netip.Prefix
+	if s.scope.IsValid() && r.Intn(2) == 0 {
+		client = netip.PrefixFrom(s.scope.Addr(), s.scope.Bits()+r.Intn(s.scope.Addr().BitLen()-s.scope.Bits()+1))
+	}
+	h.followWith(s, client, func() {
+		// what lands in the cache while the follower waits
+		shared := vC03Spec{q: s.q, cd: s.cd}
+		scopedKey := vC03Spec{q: s.q, cd: s.cd, scope: s.scope}
+		switch r.Intn(6) {
+		case 0: // the question's own answer for the shared audience
+			h.placeAt(shared, shared, "genuine")
+		case 1: // its own answer scoped to the client's subnet
+			if s.scope.IsValid() {
+				h.placeAt(scopedKey, scopedKey, "genuine")
+			} else {
+				h.placeAt(shared, shared, "genuine")
+			}
+		case 2, 3, 4: // a foreign entry (one dimension changed) under the question's shared key
+			ident, how := h.mutate(shared)
+			if how == "same" {
+				how = "genuine"
+			}
+			h.placeAt(ident, shared, how)
+		default: // a foreign entry under the scoped key the client's probe reaches
+			ident, how := h.mutate(scopedKey)
+			if how == "same" {
+				how = "genuine"
+			}
+			h.placeAt(ident, scopedKey, how)
+		}
+	})
+}
+
+// leader and follower for s from the audience `client`; place() runs while the follower waits.  Must run inside a
+// synctest bubble (the cache included).
+func (h *vC03Hist) followWith(s vC03Spec, client netip.Prefix, place func()) {
 	w := vC03WireOf(s.q.name)
 	if w == nil {
 		return
@@ -2331,11 +2375,6 @@ func (h *vC03Hist) followRound() {
 		if s.q.name[i] >= 0x80 {
 			return
 		}
-	}
-	// the audience both requests come from: none, or an ECS source inside the scope an answer would be filed under
-	var client netip.Prefix
-	if s.scope.IsValid() && r.Intn(2) == 0 {
-		client = netip.PrefixFrom(s.scope.Addr(), s.scope.Bits()+r.Intn(s.scope.Addr().BitLen()-s.scope.Bits()+1))
 	}
 	emit := func(who string, reached bool, writer *mock.Writer) {
 		out := "BMiss"
@@ -2402,31 +2441,7 @@ func (h *vC03Hist) followRound() {
 		return
 	default:
 	}
-	// what lands in the cache while the follower waits
-	shared := vC03Spec{q: s.q, cd: s.cd}
-	scopedKey := vC03Spec{q: s.q, cd: s.cd, scope: s.scope}
-	switch r.Intn(6) {
-	case 0: // the question's own answer for the shared audience
-		h.placeAt(shared, shared, "genuine")
-	case 1: // its own answer scoped to the client's subnet
-		if s.scope.IsValid() {
-			h.placeAt(scopedKey, scopedKey, "genuine")
-		} else {
-			h.placeAt(shared, shared, "genuine")
-		}
-	case 2, 3, 4: // a foreign entry (one dimension changed) under the question's shared key
-		ident, how := h.mutate(shared)
-		if how == "same" {
-			how = "genuine"
-		}
-		h.placeAt(ident, shared, how)
-	default: // a foreign entry under the scoped key the client's probe reaches
-		ident, how := h.mutate(scopedKey)
-		if how == "same" {
-			how = "genuine"
-		}
-		h.placeAt(ident, scopedKey, how)
-	}
+	place()
 	close(release)
 	<-leaderDone
 	<-followerDone
@@ -2550,11 +2565,11 @@ func vC03History(r *rand.Rand) map[string]any {
 		w int
 		f func()
 	}
-	table := []wop{{30, h.opSet}, {6, h.opReplace}, {3, h.opRemove}, {3, h.opExpire}, {6, h.opPurge}, {30, h.opServe}, {8, h.opLookup}, {5, h.opGet}}
+	table := []wop{{30, h.opSet}, {6, h.opReplace}, {3, h.opRemove}, {3, h.opExpire}, {6, h.opPurge}, {30, h.opServe}, {8, h.opLookup}, {8, h.opGet}}
 	switch flavour {
 	case 2:
 		table = []wop{{16, h.opSet}, {3, h.opReplace}, {2, h.opRemove}, {5, h.opPurge}, {12, h.opFailQ}, {6, h.opFailZ},
-			{8, h.opFailForge}, {12, h.opClock}, {5, h.opBackoff}, {22, h.opServe}, {4, h.opLookup}, {6, h.opGet}, {10, h.opFail}, {10, h.opFailWire}}
+			{8, h.opFailForge}, {12, h.opClock}, {5, h.opBackoff}, {22, h.opServe}, {4, h.opLookup}, {8, h.opGet}, {10, h.opFail}, {10, h.opFailWire}}
 	case 3:
 		table = []wop{{16, h.opSet}, {3, h.opReplace}, {2, h.opRemove}, {5, h.opPurge}, {14, h.opCut}, {4, h.opFailQ},
 			{7, h.opCutForge}, {6, h.opCutExpire}, {3, h.opClock}, {24, h.opServe}, {4, h.opLookup}, {8, h.opGet}, {9, h.opCutL}, {9, h.opCutWire}}
@@ -2648,18 +2663,20 @@ func (c *vC03CSpec) spec() vC03Spec {
 }
 
 type vC03CStep struct {
-	Op     string     `json:"op"`
-	Key    *vC03CSpec `json:"key"`
-	Ident  *vC03CSpec `json:"ident"`
-	Q      *vC03CSpec `json:"q"`
-	Target string     `json:"target"` // "%d" is replaced by the alias entry's id
-	Tag    bool       `json:"tag"`
-	Wire   bool       `json:"wire"`
-	ECS    string     `json:"ecs"`
-	Kind   int        `json:"kind"`
-	Bits   int        `json:"bits"`
-	Ms     int        `json:"ms"`
-	Age    bool       `json:"age"`
+	Op      string     `json:"op"`
+	Key     *vC03CSpec `json:"key"`
+	Ident   *vC03CSpec `json:"ident"`
+	Q       *vC03CSpec `json:"q"`
+	Target  string     `json:"target"` // "%d" is replaced by the alias entry's id
+	Tag     bool       `json:"tag"`
+	Wire    bool       `json:"wire"`
+	ECS     string     `json:"ecs"`
+	Kind    int        `json:"kind"`
+	Bits    int        `json:"bits"`
+	Ms      int        `json:"ms"`
+	Age     bool       `json:"age"`
+	TreeCD  bool       `json:"tree_cd"`
+	TreeECS bool       `json:"tree_ecs"`
 }
 
 type vC03CScript struct {
@@ -2669,10 +2686,19 @@ type vC03CScript struct {
 	TLD     string      `json:"tld"`
 	Queryer string      `json:"queryer"` // "", "loop", "store", "prefetch"
 	Kind    string      `json:"kind"`
+	Bubble  bool        `json:"bubble"` // run the script in a synctest bubble (needed by op follow)
 	Steps   []vC03CStep `json:"steps"`
 }
 
-func vC03RunScript(sc vC03CScript) map[string]any {
+func vC03RunScript(sc vC03CScript) (out map[string]any) {
+	if sc.Bubble {
+		sc.Bubble = false
+		synctest.Test(vC03T, func(_ *testing.T) { out = vC03RunScript(sc) })
+		if out == nil {
+			out = map[string]any{"inconclusive": true}
+		}
+		return out
+	}
 	pol := sc.Pol
 	if pol == [4]uint8{} {
 		pol = vC03Policies[0]
@@ -2752,7 +2778,16 @@ func vC03RunScript(sc vC03CScript) map[string]any {
 		case "lookup":
 			h.lookupAt(st.Q.spec())
 		case "get":
-			h.getAt(st.Q.spec())
+			h.getPlainAt(st.Q.spec())
+		case "gettree": // Store.GetWithContext inside the tree of an outer client that sent CD=1 / an ECS option
+			h.getTreeAtWith(st.Q.spec(), st.TreeCD, st.TreeECS)
+		case "follow": // a dedup follower of q; the placement key / ident lands while it waits (script needs "bubble")
+			key := st.Key.spec()
+			ident, how := key, "genuine"
+			if st.Ident != nil {
+				ident, how = st.Ident.spec(), "forged"
+			}
+			h.followWith(st.Q.spec(), client, func() { h.placeAt(ident, key, how) })
 		case "clock":
 			h.now = h.now.Add(time.Duration(st.Ms) * time.Millisecond)
 			h.ops = append(h.ops, fmt.Sprintf("OpClock %d", st.Ms))
